@@ -54,13 +54,24 @@ def matchCanonical (a : Arch) (init : String) : Option (Nat × List (String × N
     else none
   | _ => none
 
+/-! STACK WIN programs are recognised on the token list the lexer of `eval_win_expr` produces
+    (`Win.tokenize`: `split_ascii_whitespace`, the `=tok` split, the `match token` classification —
+    C07's model of the lexer, no evaluation) and on whether the raw text contains `@` (the
+    `.raSearch` rule of `eval_win_expr` looks at the raw text). Offsets are `i32` literals as
+    the lexer reads them (a decimal that does not fit `i32` is not a literal). -/
+
+/-- the registers a `$r $T0 OFF - ^ =` group may name -/
+def winRegOfVar (v : String) : Option String :=
+  if v = "$ebx" then some "ebx" else if v = "$esi" then some "esi" else if v = "$edi" then some "edi"
+  else none
+
 /-- `$r $T0 OFF - ^ =` groups -/
-def winGroups : List String → Option (List (String × Nat))
+def winGroups : List Win.Tok → Option (List (String × Nat))
   | [] => some []
-  | r :: "$T0" :: off :: "-" :: "^" :: "=" :: rest =>
-    if r.startsWith "$" then
-      match off.toNat?, winGroups rest with
-      | some o, some l => some ((unDollar r, o) :: l)
+  | .var r :: .var t :: .lit off :: .sub :: .deref :: .assign :: rest =>
+    if t = "$T0" then
+      match winRegOfVar r, winGroups rest with
+      | some n, some l => some ((n, off.toNat) :: l)
       | _, _ => none
     else none
   | _ => none
@@ -74,43 +85,64 @@ inductive WinShape where
   | ra (ebpOff : Option Nat) (saved : List (String × Nat))
   deriving Repr
 
-def stdPrefix : List String :=
-  ["$T0", "$ebp", "=", "$eip", "$T0", "4", "+", "^", "=", "$ebp", "$T0", "^", "=", "$esp", "$T0", "8", "+", "="]
-def msvcGroup : List String :=
-  ["$L", "$T0", ".cbSavedRegs", "-", "=", "$P", "$T0", "8", "+", ".cbParams", "+", "="]
-def raPrefix : List String :=
-  ["$T0", ".raSearch", "=", "$eip", "$T0", "^", "=", "$esp", "$T0", "4", "+", "="]
-def atTrailer : List String := ["$T1", "$esp", "16", "@", "="]
+/-- `$T0 $ebp = $eip $T0 4 + ^ = $ebp $T0 ^ = $esp $T0 8 + =` -/
+def stdPrefix : List Win.Tok :=
+  [.var "$T0", .var "$ebp", .assign, .var "$eip", .var "$T0", .lit 4, .add, .deref, .assign,
+   .var "$ebp", .var "$T0", .deref, .assign, .var "$esp", .var "$T0", .lit 8, .add, .assign]
+/-- `$L $T0 .cbSavedRegs - = $P $T0 8 + .cbParams + =` -/
+def msvcGroup : List Win.Tok :=
+  [.var "$L", .var "$T0", .var ".cbSavedRegs", .sub, .assign,
+   .var "$P", .var "$T0", .lit 8, .add, .var ".cbParams", .add, .assign]
+/-- `$T0 .raSearch = $eip $T0 ^ = $esp $T0 4 + =` -/
+def raPrefix : List Win.Tok :=
+  [.var "$T0", .var ".raSearch", .assign, .var "$eip", .var "$T0", .deref, .assign,
+   .var "$esp", .var "$T0", .lit 4, .add, .assign]
+/-- `$ebp $T0 4 - ^ =` -/
+def raAtEbp : List Win.Tok := [.var "$ebp", .var "$T0", .lit 4, .sub, .deref, .assign]
+/-- `$ebp $ebp =` -/
+def raSelfEbp : List Win.Tok := [.var "$ebp", .var "$ebp", .assign]
+/-- `$T1 $esp 16 @ =` -/
+def atTrailer : List Win.Tok := [.var "$T1", .var "$esp", .lit 16, .align, .assign]
 
-def stripPrefix (pre l : List String) : Option (List String) :=
+def stripPrefix (pre l : List Win.Tok) : Option (List Win.Tok) :=
   if pre.isPrefixOf l then some (l.drop pre.length) else none
 
-def stripSuffix (suf l : List String) : Option (List String) :=
+def stripSuffix (suf l : List Win.Tok) : Option (List Win.Tok) :=
   if suf.isSuffixOf l then some (l.take (l.length - suf.length)) else none
 
-def matchWin (prog : List Char) : Option WinShape :=
-  let toks := (String.ofList prog).splitOn " " |>.filter (· ≠ "")
+def matchWinToks (hasAt : Bool) (toks : List Win.Tok) : Option WinShape :=
   match stripPrefix stdPrefix toks with
   | some rest =>
-    let rest := (stripPrefix msvcGroup rest).getD rest
-    (winGroups rest).map WinShape.std
+    if hasAt then none
+    else
+      let rest := (stripPrefix msvcGroup rest).getD rest
+      (winGroups rest).map WinShape.std
   | none =>
     match stripPrefix raPrefix toks with
     | none => none
     | some rest =>
       match stripSuffix atTrailer rest with
       | some mid =>
-        match mid with
-        | "$ebp" :: "$T0" :: "4" :: "-" :: "^" :: "=" :: gs => (winGroups gs).map WinShape.raAt
-        | _ => none
+        if !hasAt then none
+        else match stripPrefix raAtEbp mid with
+          | some gs => (winGroups gs).map WinShape.raAt
+          | none => none
       | none =>
-        match rest with
-        | "$ebp" :: "$ebp" :: "=" :: gs => (winGroups gs).map (WinShape.ra none)
-        | "$ebp" :: "$T0" :: off :: "-" :: "^" :: "=" :: gs =>
-          match off.toNat?, winGroups gs with
-          | some o, some l => some (WinShape.ra (some o) l)
-          | _, _ => none
-        | _ => none
+        if hasAt then none
+        else match stripPrefix raSelfEbp rest with
+          | some gs => (winGroups gs).map (WinShape.ra none)
+          | none =>
+            match rest with
+            | .var r :: .var t :: .lit off :: .sub :: .deref :: .assign :: gs =>
+              if r = "$ebp" ∧ t = "$T0" then
+                match winGroups gs with
+                | some l => some (WinShape.ra (some off.toNat) l)
+                | none => none
+              else none
+            | _ => none
+
+def matchWin (prog : List Char) : Option WinShape :=
+  matchWinToks (prog.contains '@') (Win.tokenize prog)
 
 /-! ### lookups -/
 
@@ -119,9 +151,11 @@ def winAt (w : World) (wins : List (List Win.Rec)) (instr : Nat) : Option Win.SI
   match moduleAt (modTable w.mods) instr with
   | none => (none, none)
   | some i =>
-    match w.mods[i]? with
-    | some m => if instr < m.base then (none, none) else (winTables (wins[i]?.getD [])).at (instr - m.base)
-    | none => (none, none)
+    -- `walk_frame` is reached through the module's symbol file: no symbol file, no record
+    match w.mods[i]?, (w.syms[i]?).join with
+    | some m, some _ =>
+      if instr < m.base then (none, none) else (winTables (wins[i]?.getD [])).at (instr - m.base)
+    | _, _ => (none, none)
 
 def noRecordAt (w : World) (wins : List (List Win.Rec)) (instr : Nat) : Bool :=
   (cfiRecordAt w instr).isNone && (winAt w wins instr).1.isNone && (winAt w wins instr).2.isNone
@@ -195,6 +229,8 @@ def linkWinM (w : World) (wins : List (List Win.Rec)) (mem : Mem) (st : MState) 
         match st.fp with
         | none => false
         | some b =>
+          -- `.raSearch` is computed before the first token, whether the program uses it or not
+          decide (st.sp + (si.info.loc.toNat + si.info.sav.toNat + st.gcp) ≤ U32MAX) &&
           decide (b + 8 ≤ U32MAX) && rd (b + 4) == some e.ret && rd b == e.fp && e.fp.isSome &&
           decide (e.sp = b + 8) && saveOk b saved && regsFrom [] e.regs (slotOf b saved)
       | some (.raAt saved) =>
@@ -309,6 +345,8 @@ def PreW (w : World) (wins : List (List Win.Rec)) (env : Env) (a : Arch) (os : O
     (chain : List Exp) : Bool :=
   mem.range?.isSome && (a == .x86 || noWins wins) &&
   ctx.has a a.ipName && ctx.has a a.spName && (ctx.m64 == (a == .mips64)) &&
+  -- x86: 32-bit register values (what the request parser / `CONTEXT_X86` can hold)
+  (a != .x86 || Win.x86Regs.all fun r => decide (ctx.raw .x86 r ≤ U32MAX)) &&
   (!(a.leafOk) || ctx.has a (if a.isMips then "ra" else "lr") ||
      (cfiRecordAt w ctx.ip).all fun r => r.init ≠ leafRule a) &&
   preMixedFrom w wins env a os mem (initState a ctx) chain
